@@ -730,6 +730,106 @@ def rule_overwrite(F, R):
     R.floor("R-C15-7", n, 2, "string / vector readers")
 
 
+def rule_nonnull_deref(F, R, fns):
+    """R-C15-8: a reader never dereferences an owning pointer it has not made non-null on that path. In every function that reads from a stream,
+    for each std::unique_ptr that is a non-const reference parameter or a local: must-analysis of "is non-null" over the CFG (established by a
+    null test's success edge or an assignment from make_unique / clone; lost at any other assignment, reset, move or by-reference escape);
+    at every `*p` / `p->` the fact holds. A container reader resizes its vector first, so the elements it hands down are null pointers: a path
+    that skips the factory lookup (a failed read of the type id, say) crashes instead of reporting failure."""
+    from ..cfg import must_dataflow
+    nsites = 0
+    for f in fns:
+        if f.body is None or f.cfg is None:
+            continue
+        if not any(True for _ in f.calls(lambda x: callee(x) in IO_READ)) and not (f.qn.split("::")[-1] == "read"):
+            continue
+        tracked = {}
+        for p_ in f.params:
+            t = p_.get("t") or ""
+            if "std::unique_ptr<" in t and t.rstrip().endswith("&") and not t.startswith("const "):
+                tracked[p_["d"]] = p_.get("n")
+        for v in f.nodes():
+            if v["k"] == "var" and "std::unique_ptr<" in (v.get("t") or "") and not v.get("isref"):
+                tracked[v["d"]] = v.get("n")
+        if not tracked:
+            continue
+        derefs = [c for c in f.calls(lambda x: x.get("ck") == "op" and x.get("op") in ("*", "->") and x.get("cls") == "std::unique_ptr" and x.get("c") and
+                                     ref_decl(x["c"][0]) in tracked)]
+        if not derefs:
+            continue
+
+        def t_elem(facts, e):
+            if e.kind != "node" or e.node is None:
+                return None
+            n = e.node
+            if n["k"] == "var" and n.get("d") in tracked:
+                init = skip(n["c"][0]) if n.get("c") else None
+                facts.discard(n["d"])
+                if init is not None and any(x["k"] == "call" and callee(x).split("::")[-1].split("<")[0] in ("make_unique", "clone") for x in walk(init)):
+                    facts.add(n["d"])
+                return None
+            if n["k"] != "call":
+                return None
+            if n.get("ck") == "op" and n.get("op") == "=" and n.get("cls") == "std::unique_ptr" and ref_decl(n["c"][0]) in tracked:
+                d = ref_decl(n["c"][0])
+                rhs = skip(n["c"][1])
+                facts.discard(d)
+                if rhs is not None and rhs["k"] == "call" and callee(rhs).split("::")[-1].split("<")[0] in ("make_unique", "clone"):
+                    facts.add(d)
+                return None
+            if n.get("ck") == "mem" and n.get("cls") == "std::unique_ptr" and callee(n).split("::")[-1] in ("reset", "release", "swap") and ref_decl(obj(n)) in tracked:
+                facts.discard(ref_decl(obj(n)))
+                return None
+            for i_, a_ in enumerate(args(n)):
+                d = ref_decl(a_)
+                if d in tracked and n.get("pk", "")[i_:i_ + 1] in ("r", "p", "m") and not (n.get("ck") == "op" and n.get("cls") == "std::unique_ptr"):
+                    facts.discard(d)
+            if callee(n) == "std::move" and args(n) and ref_decl(args(n)[0]) in tracked:
+                facts.discard(ref_decl(args(n)[0]))
+            return None
+
+        def t_edge(facts, b, k):
+            if b.cond is None or len(b.succ) != 2:
+                return None
+            inner, neg = strip_not(b.cond)
+            d = None
+            if inner is not None:
+                x = skip(inner)
+                if x["k"] == "call" and callee(x).endswith("operator bool") and x.get("c"):
+                    d = ref_decl(x["c"][0])
+                elif x["k"] == "ref":
+                    d = x.get("d")
+                elif x["k"] in ("bin", "call") and x.get("op") in ("!=", "==") and len(x.get("c", ())) == 2 and \
+                        any("nullptr" in pp(c_) or (skip(c_) or {}).get("k") in ("nullptr", "null") for c_ in x["c"]):
+                    for c_ in x["c"]:
+                        if ref_decl(c_) in tracked:
+                            d = ref_decl(c_)
+                    if x["op"] == "==":
+                        neg = not neg
+            if d in tracked and (k == 0) != bool(neg):
+                facts.add(d)
+            return None
+
+        IN, before = must_dataflow(f.cfg, set(), t_elem, t_edge)
+        seen_lines = set()
+        for c in derefs:
+            d = ref_decl(c["c"][0])
+            w = f.cfg.where_enclosing(c)
+            facts = before(*w) if w is not None else None
+            if facts is None:
+                continue
+            nsites += 1
+            ok = d in facts
+            if ok and (f.relfile, c["l"]) in seen_lines:
+                continue
+            seen_lines.add((f.relfile, c["l"]))
+            R.check(ok, "R-C15-8", "%s %s@%s" % (f.qn, pp(c)[:30], f.loc(c)), f.loc(c),
+                    "`%s` is dereferenced only where it is known to be non-null" % tracked[d],
+                    "`%s` may be reached with `%s` null (on a path that skips the assignment / the null test - a failed read of the type id, for one): the container "
+                    "reader has just resized its vector, so the element is a null pointer and a truncated stream crashes the reader instead of being reported" % (pp(c)[:40], tracked[d]))
+    R.floor("R-C15-8", nsites, 1, "dereferences of owning pointers in readers")
+
+
 def run(ctx):
     R = ctx.report
     tus = sorted(set(ctx.all_tus()) | {"witness/stream_inst.cpp"}) if ctx.thorough else QUICK_TUS
@@ -743,3 +843,4 @@ def run(ctx):
     rule_version(F, R)
     rule_hash_coverage(F, R)
     rule_overwrite(F, R)
+    rule_nonnull_deref(F, R, fns)
